@@ -62,7 +62,7 @@ def checkC01 (toks : List String) (res : String) : Option Verdict :=
         (c, e, (promote a.L).inRange al && (promote a.R).inRange ar && T.inRange al && T.inRange ar && T.inRange e)
     let spec : Option Bool := if !fits then none else
       match parseScRes res with
-      | some (_, e, _, v) => some (e == wantE && v == wantV)
+      | some (_, e, x, v) => some (e == wantE && v == wantV && x == a.radix)
       | none => some false
     some { model := showRes showNum m, spec := spec, branch := "bin/" ++ ops ++ (if fits then "" else "/nofit"), nontrivial := fits }
   | "neg" :: rx :: lt :: el :: l :: [] => do
@@ -71,7 +71,7 @@ def checkC01 (toks : List String) (res : String) : Option Verdict :=
     let fits := (promote L).inRange (-l)
     let spec : Option Bool := if !fits then none else
       match parseScRes res with
-      | some (_, e, _, v) => some (e == el && v == -l)
+      | some (_, e, x, v) => some (e == el && v == -l && x == rx)
       | none => some false
     some { model := showRes showNum m, spec := spec, branch := "neg", nontrivial := fits }
   | "binint" :: ops :: rx :: lt :: el :: rt :: l :: r :: [] => do
@@ -95,7 +95,7 @@ def checkC02 (toks : List String) (res : String) : Option Verdict :=
     let (wantE, wantV) : Int × Int := if op == .div then (a.eL - a.eR, a.l.tdiv a.r) else (a.eL, a.l.tmod a.r)
     let spec : Option Bool := if !guard then none else
       match parseScRes res with
-      | some (_, e, _, v) => some (e == wantE && v == wantV)
+      | some (_, e, x, v) => some (e == wantE && v == wantV && x == a.radix)
       | none => some false
     some { model := showRes showNum m, spec := spec, branch := "bin/" ++ ops, nontrivial := guard }
   | "quot" :: _ :: rest => do
